@@ -380,9 +380,9 @@ func c09Children(c *core.Ctx, bounds *[]string) {
 	for _, p := range c09ChildPrograms("deep", c.Quick()) {
 		jobs = append(jobs, job{"deep", p, 1024})
 	}
-	limits := []int{256}
+	limits := []int{64, 256}
 	if !c.Quick() {
-		limits = []int{64, 256}
+		limits = []int{64, 128, 256}
 	}
 	for _, lim := range limits {
 		for _, p := range c09ChildPrograms("mem", c.Quick()) {
